@@ -59,6 +59,15 @@ CLAIMS = {
               "the buffer as it was at the receiver's last suspension (commit clause) and on cancel/interrupt/close at any suspension "
               "leaves the buffer untouched and gives the read mutex up; closed+empty raises StreamClosed; receivers are ordered by the "
               "Lock contracts.", "`assert self._closed` after an empty wake-up is assumed; Queue.__aiter__ is not under contract.", "5/C10"),
+ "C11": claim("Channel: put appends the message exactly once to the end of every registered buffer, adds/removes no buffer and wakes every "
+              "waiting consumer before it yields (closed: StreamClosed, nothing stored); close keeps pending messages; `await channel` "
+              "registers a fresh empty buffer, returns the head of it (first message since registration) and unregisters it on every exit "
+              "route; `async for` hands out exactly the head of the private buffer per step, ends only when closed and drained, and "
+              "unregisters on every exit; every function proves the guarantee that buffers registered by others only grow at the end and "
+              "are never unregistered (the rely of each consumer).",
+              "Assumed (listed in evidence): a consumer woken through the channel's notification finds a message or the channel closed "
+              "(link wake-up signal <-> buffer, the Channel analogue of Queue's assert); composition of the per-function clauses into "
+              "the per-consumer sequence statement is a paper argument (DESIGN 12).", "5/C11"),
  "C13": claim("Pipe: scale == min(1, throughput / sum of limits) as invariant (dict sum as ghost), every scale change wakes all "
               "waiting transfers in the same step, a transfer is registered with exactly its own limit while it runs and is removed on "
               "every exit route; UnboundedPipe.transfer.",
@@ -72,8 +81,8 @@ CLAIMS = {
               "does not consult __subclasscheck__ on this interpreter (measured in setup; DESIGN 6/D8) -- not decided by an obligation.", "5/C17"),
  "C20": claim("Suspension counters: at least one suspension on every normal-completion path (per step for async generators) of "
               "postpone, suspend, Notification/Condition/After/Before/Moment/Instant awaits, Flag.set, Task.__await__, Scope.__await__, "
-              "Queue.put/close/_await_message, Pipe.transfer, UnboundedPipe.transfer, interval, delay, Scope._await_children.",
-              "Not covered yet: Tracked.set, Resources, Channel, collect/first, Scope.__aexit__'s normal path as a separate clause; "
+              "Queue.put/close/_await_message, Channel.put/close/__await__, Pipe.transfer, UnboundedPipe.transfer, interval, delay, Scope._await_children.",
+              "Not covered yet: Tracked.set, Resources, collect/first, Channel.__aiter__ steps (no postponement per buffered item by design), Scope.__aexit__'s normal path as a separate clause; "
               "K-yield (one suspension lets every runnable activity run) is kernel theory, assumed.", "5/C20"),
 }
 
@@ -94,7 +103,6 @@ for p in props:
         })
 NA = {
  "C02": "determinism needs the scans W5/W6 and the WaitQueue refinement K1, which are not built yet; no function-level contract carries it",
- "C11": "Channel functions are not under contract yet (dict-of-buffers model exists, contracts pending)",
  "C12": "Resources/Tracked and the exec-generated ResourceLevels operators are not under contract yet",
  "C15": "Loop.run/_run_events/_run_coroutine and StateHandler.assign are not under contract yet; thread isolation rests on threading.local (assumed) and is outside this family",
  "C16": "collect/first need `async for` over asyncstdlib.islice (external) and the Scope/Queue contracts composed; not built yet",
